@@ -14,7 +14,7 @@ for pid, c in sorted(CHECKS.items()):
         "evidence_file": f"/verif/evidence/{pid}.json",
         "replay_cmd_template": f"./check {pid} --replay {{path}}",
         "engine": "coq-model+correspondence",
-        "level_claimed": {"category": "proof", "text": c["text"], "design_ref": c.get("design_ref", f"DESIGN.md section 5, {pid}")},
+        "level_claimed": {"category": "proof", "text": c["text"], "design_ref": c.get("design_ref", f"DESIGN.md section 10.2 (level reached; section 5, {pid} is the plan as written before the build)")},
         "level_note": c["note"],
         "technique": c.get("technique", "machine-checked proof in Coq 8.16 about an executable Gallina model, tied to the code by a regenerating translator and a correspondence check"),
     })
